@@ -14,10 +14,12 @@ import (
 	"encoding/hex"
 	"encoding/json"
 	"fmt"
+	"os"
 	"sort"
 	"strconv"
 	"strings"
 	"testing"
+	"time"
 	"unicode"
 
 	ds "github.com/sealdice/dicescript"
@@ -237,6 +239,15 @@ type l2group struct {
 func checkAfterRun(vm *ds.Context, src string, pr *printed, vars []VarDef, mk failer) (*rt.Failure, runInfo) {
 	info := runInfo{}
 	before := observe(vm)
+	if pr == nil {
+		// every reported span must lie inside what was consumed (otherwise it belongs to text the parser gave up on)
+		off := vm.GetParsedOffset()
+		for _, sp := range before.spans {
+			if sp.B < 0 || sp.E < sp.B || sp.E > off {
+				return mk("spans", "span-beyond-consumed", fmt.Sprintf("parsed offset %d, spans %s", off, fmtSpans(before.spans)), "spans inside the consumed source"), info
+			}
+		}
+	}
 
 	// (e) + (d): ask twice, nothing else may move
 	var t1, t2 string
@@ -270,6 +281,13 @@ func checkAfterRun(vm *ds.Context, src string, pr *printed, vars []VarDef, mk fa
 	var l2 []*l2group
 	vg := vmGroups(before.spans)
 	if pr == nil {
+		for _, sp := range before.spans {
+			if !sp.RetOK {
+				// a span whose value is not an integer (undefined name, string, …): not arithmetic over dice
+				info.evalSkipped = "non-int-span"
+				return nil, info
+			}
+		}
 		for _, g := range vg {
 			groups = append(groups, gspan{g.b, g.e})
 		}
@@ -323,7 +341,11 @@ func checkAfterRun(vm *ds.Context, src string, pr *printed, vars []VarDef, mk fa
 		info.emptyText = true
 		text = before.ret
 	}
-	al, aerr := align(text, S, groups)
+	if text == "" && len(groups) == 0 {
+		// no roll at all: the source is its own process
+		text = strings.TrimSpace(S)
+	}
+	al, stripped, aerr := align(text, S, groups)
 	if aerr != nil {
 		return mk("alignment", aerr.sig, fmt.Sprintf("text %q: %s", t1, aerr.msg), "the parsed source with every roll replaced by value[annotation]"), info
 	}
@@ -350,10 +372,6 @@ func checkAfterRun(vm *ds.Context, src string, pr *printed, vars []VarDef, mk fa
 	}
 
 	// (c) the de-annotated text re-evaluates to the result
-	stripped, ok := stripAnnotations(text)
-	if !ok {
-		return mk("alignment", "align:bracket", fmt.Sprintf("text %q has unbalanced brackets", t1), "balanced annotations"), info
-	}
 	if !before.retIsInt {
 		info.evalSkipped = "result-not-int"
 		return nil, info
@@ -365,6 +383,19 @@ func checkAfterRun(vm *ds.Context, src string, pr *printed, vars []VarDef, mk fa
 			return mk("alignment", "align:gap", fmt.Sprintf("text %q does not begin with the definitions %q", t1, pre), "the definitions verbatim"), info
 		}
 		stripped = stripped[len(pre):]
+	}
+	if pr == nil {
+		// a negative value that opens a line reads as a subtraction from the line before (in the text as in the
+		// language); generated programs avoid that layout, free text cannot: not judged
+		for i, a := range al {
+			if a.val < 0 {
+				before := strings.TrimRight(S[:groups[i].b], " \t\r")
+				if strings.HasSuffix(before, "\n") && strings.TrimSpace(before) != "" {
+					info.evalSkipped = "negative-value-opens-a-line"
+					return nil, info
+				}
+			}
+		}
 	}
 	v, err := evalText(stripped)
 	switch {
@@ -379,6 +410,26 @@ func checkAfterRun(vm *ds.Context, src string, pr *printed, vars []VarDef, mk fa
 		return mk("re-evaluation", "eval:result", fmt.Sprintf("text %q without annotations is %q = %d", t1, stripped, v), "the result "+before.ret), info
 	}
 	return nil, info
+}
+
+// errClass shortens an error text to a stable class name (parse errors carry positions).
+func errClass(e string) string {
+	e = firstLine(e)
+	if e != "" && e[0] >= '0' && e[0] <= '9' {
+		return "parse-error"
+	}
+	r := []rune(e)
+	if len(r) > 14 {
+		r = r[:14]
+	}
+	return string(r)
+}
+
+func firstLine(s string) string {
+	if i := strings.IndexByte(s, '\n'); i >= 0 {
+		return s[:i]
+	}
+	return s
 }
 
 func safeSlice(s string, b, e int) string {
@@ -1004,13 +1055,13 @@ func alignNested(inText string, def *VarDef, where string, mk failer) *rt.Failur
 	// a term that ends with ')' absorbs the blanks behind it
 	S := pr.src
 	for i := range groups {
-		if groups[i].e > 0 && S[groups[i].e-1] == ')' {
-			for groups[i].e < len(S) && (S[groups[i].e] == ' ' || S[groups[i].e] == '\t' || S[groups[i].e] == '\n' || S[groups[i].e] == '\r') {
+		if strings.HasSuffix(strings.TrimRightFunc(S[groups[i].b:groups[i].e], unicode.IsSpace), ")") {
+			for groups[i].e < len(S) && isAllSpace(S[groups[i].e:groups[i].e+1]) {
 				groups[i].e++
 			}
 		}
 	}
-	if _, aerr := align(inText, S, groups); aerr != nil {
+	if _, _, aerr := align(inText, S, groups); aerr != nil {
 		return mk("alignment", "computed:"+aerr.sig, fmt.Sprintf("%s: nested text %q vs body %q: %s", where, inText, S, aerr.msg), "the body with every roll replaced by value[annotation]")
 	}
 	return nil
@@ -1039,6 +1090,18 @@ type caseOutcome struct {
 }
 
 func checkCase(c *Case, s *rt.Section) (*rt.Failure, caseOutcome) {
+	if os.Getenv("C14_SLOW") != "" {
+		t0 := time.Now()
+		defer func() {
+			if d := time.Since(t0); d > 100*time.Millisecond {
+				fmt.Printf("SLOW %v %q\n", d, c.Src)
+			}
+		}()
+	}
+	return checkCase1(c, s)
+}
+
+func checkCase1(c *Case, s *rt.Section) (*rt.Failure, caseOutcome) {
 	out := caseOutcome{}
 	src, pr := c.source()
 	c.Src = src
@@ -1056,7 +1119,7 @@ func checkCase(c *Case, s *rt.Section) (*rt.Failure, caseOutcome) {
 		return mk("run", pi.Sig(), "Run panicked: "+pi.Value, "a result"), out
 	}
 	if err != nil {
-		out.discard = "run-error"
+		out.discard = "run-error:" + errClass(err.Error())
 		return nil, out
 	}
 	out.rest = vm.RestInput
@@ -1070,7 +1133,10 @@ func checkCase(c *Case, s *rt.Section) (*rt.Failure, caseOutcome) {
 		return f, out
 	}
 	// free text follows: only what the VM itself reports as consumed is judged
-	f, info := checkAfterRun(vm, src, nil, c.Vars, mk)
+	mkTail := func(oracle, sig, observed, expected string) *rt.Failure {
+		return mk(oracle, "tail:"+sig, observed+fmt.Sprintf(" (matched %q, rest %q)", vm.Matched, vm.RestInput), expected)
+	}
+	f, info := checkAfterRun(vm, src, nil, c.Vars, mkTail)
 	out.info = info
 	return f, out
 }
@@ -1234,8 +1300,8 @@ var tailWords = []string{"attack", "the", "goblin", "攻击", "力量", "x", "y"
 
 func drawTail(t *rapid.T, g *gen) string {
 	var sb strings.Builder
-	sb.WriteString(rapid.SampledFrom([]string{" ", " ", " ", "\n", "\n", ";", "; ", " \n", "", "  ", "\t"}).Draw(t, "tailsep"))
-	switch rapid.IntRange(0, 9).Draw(t, "tailkind") {
+	sb.WriteString(pickOf(t, []string{" ", " ", " ", "\n", "\n", ";", "; ", " \n", "", "  ", "\t"}, "tailsep"))
+	switch uniform(t, 10, "tailkind") {
 	case 0, 1, 2: // a second expression cut somewhere
 		g.budget = rapid.IntRange(1, 5).Draw(t, "tbudget")
 		e2 := printNode(g.genExpr(2))
@@ -1243,15 +1309,15 @@ func drawTail(t *rapid.T, g *gen) string {
 		for cut > 0 && cut < len(e2) && (e2[cut]&0xC0) == 0x80 {
 			cut--
 		}
-		pre := rapid.SampledFrom([]string{"", "", "[", "{", "(", "`{", "'", "x(", "x[", "[x,", "{x:", "x ? "}).Draw(t, "tailopen")
+		pre := pickOf(t, []string{"", "", "[", "{", "(", "`{", "'", "x(", "x[", "[x,", "{x:", "x ? "}, "tailopen")
 		sb.WriteString(pre + e2[:cut])
 	default:
 		n := rapid.IntRange(1, 6).Draw(t, "ntail")
 		for i := 0; i < n; i++ {
-			if i > 0 && rapid.IntRange(0, 9).Draw(t, "tsp") < 5 {
-				sb.WriteString(rapid.SampledFrom([]string{" ", " ", "\n"}).Draw(t, "tspc"))
+			if i > 0 && pct(t, 50, "tsp") {
+				sb.WriteString(pickOf(t, []string{" ", " ", "\n"}, "tspc"))
 			}
-			sb.WriteString(rapid.SampledFrom(tailWords).Draw(t, "tword"))
+			sb.WriteString(pickOf(t, tailWords, "tword"))
 		}
 	}
 	return sb.String()
@@ -1284,11 +1350,12 @@ func TestProp(t *testing.T) {
 	thorough := run.Env.Thorough()
 
 	exprRule := "programs of 1..3 statements (82% one) drawn from: int literals, variables (ASCII, CJK, accented, full-width names bound to ints), + - * in ASCII and full-width spelling, unary signs, parentheses, dice terms of every family (XdY with k/kh/q/kl/dh/dl[n], min/max, 优势/劣势, default sides, chains, Fate, CoC b/p[n], WoD XaYmZkNqM, Double Cross XcYmZ) whose operands are numbers or parenthesised sub-expressions with guaranteed legal ranges (sub-rolls up to 3 deep), blanks/tabs/CR/LF wherever the grammar takes them, ';' or line-break separators, on a VM seeded with 16 drawn bytes; oracle: VM spans = printer spans, text = source with every top-level roll replaced by value[annotation], value = span Ret, annotation = roll text [= dice listing][,sub=value…] with the listing's total/count/faces/marks implied by the operands, de-annotated text re-evaluates to Ret, GetDetailText twice equal and Ret/Attrs/seed/DetailSpans untouched; non-trivial = at least 2 dice terms and at least 1 binary operator; distinct by (source, seed, variables)"
-	run.Check("expr", 36000, 520000, exprRule, func(t *rapid.T, s *rt.Section) {
+	run.Check("expr", 40000, 520000, exprRule, func(t *rapid.T, s *rt.Section) {
 		c := &Case{Seed: drawSeed(t), Vars: drawVars(t, false)}
 		g := newGen(t, c.Vars)
+		g.avoid = s.Avoid
 		depth := 3
-		if thorough && rapid.IntRange(0, 9).Draw(t, "deep") == 0 {
+		if thorough && pct(t, 10, "deep") {
 			depth = 4
 		}
 		c.Prog = g.genProgram(3, depth)
@@ -1318,23 +1385,23 @@ func TestProp(t *testing.T) {
 		enumerate(s, run, thorough)
 	})
 
-	sessRule := "2..5 programs (as in expr, without Double Cross whose rolls ignore the VM seed) run in a row on VM A, which asks for the text 0..3 times after each, and on a twin B with the same seed that asks a different number of times; 12% of the steps fail (d0, 0d6, unbalanced parenthesis) and 15% rebind a variable through Attrs; oracle: the full expr oracle on A whenever it asks (catches a stale cache or stale spans from the previous program), and equal Ret / generator state / variables / text between A and B after every step; non-trivial = at least 2 successful steps with dice, with A and B asking differently before the last; distinct by step list"
-	run.Check("session", 7000, 90000, sessRule, func(t *rapid.T, s *rt.Section) {
+	sessRule := "2..5 programs (as in expr) run in a row on VM A, which asks for the text 0..3 times after each, and on a twin B with the same seed that asks a different number of times; 12% of the steps fail (d0, 0d6, unbalanced parenthesis) and 15% rebind a variable through Attrs; oracle: the full expr oracle on A whenever it asks (catches a stale cache or stale spans from the previous program), and equal Ret / generator state / variables / text between A and B after every step; non-trivial = at least 2 successful steps with dice, with A and B asking differently before the last; distinct by step list"
+	run.Check("session", 8000, 90000, sessRule, func(t *rapid.T, s *rt.Section) {
 		c := &Session{Seed: drawSeed(t), Vars: drawVars(t, false)}
 		n := rapid.IntRange(2, 5).Draw(t, "nsteps")
 		diceSteps, differ := 0, false
 		nt := false
 		for i := 0; i < n; i++ {
 			st := Step{}
-			if i > 0 && rapid.IntRange(0, 99).Draw(t, "rebind") < 15 {
-				v := rapid.SampledFrom(c.Vars).Draw(t, "which")
+			if i > 0 && pct(t, 15, "rebind") {
+				v := pickOf(t, c.Vars, "which")
 				st.Set = &VarDef{Name: v.Name, Val: rapid.Int64Range(1, 9).Draw(t, "newval")}
 			}
-			if rapid.IntRange(0, 99).Draw(t, "bad") < 12 {
-				st.Raw = rapid.SampledFrom([]string{"d0", "0d6", "(2d6", "2d6+(", "3d6k0", "x+*2", "(0-1)d6", "2a1"}).Draw(t, "raw")
+			if pct(t, 12, "bad") {
+				st.Raw = pickOf(t, []string{"d0", "0d6", "(2d6", "2d6+(", "3d6k0", "(0-1)d6", "2a1", "d(0)", "2c1"}, "raw")
 			} else {
 				g := newGen(t, c.Vars)
-				g.noDC = true
+				g.avoid = s.Avoid
 				st.Prog = g.genProgram(2, 2)
 				if g.nDice > 0 {
 					diceSteps++
@@ -1343,8 +1410,8 @@ func TestProp(t *testing.T) {
 					}
 				}
 			}
-			st.AskA = rapid.SampledFrom([]int{0, 0, 1, 1, 1, 2, 3}).Draw(t, "askA")
-			st.AskB = rapid.SampledFrom([]int{0, 0, 0, 1, 2}).Draw(t, "askB")
+			st.AskA = pickOf(t, []int{0, 0, 1, 1, 1, 2, 3}, "askA")
+			st.AskB = pickOf(t, []int{0, 0, 0, 1, 2}, "askB")
 			if (st.AskA > 0) != (st.AskB > 0) && st.Raw == "" {
 				differ = true
 			}
@@ -1372,8 +1439,8 @@ func TestProp(t *testing.T) {
 		s.Report(t, f)
 	})
 
-	compRule := "as expr, with 1..2 variables bound to computed values whose body is a generated expression (no default-sides dice: they crash inside a computed body, a C01 matter; no Double Cross), either stored through the API or defined in the program itself by a leading `&name = body;` statement (body spans are rebased by fixCodeByOffset); oracle: value[name=<nested text>=value] where the nested text is the body with its rolls replaced (aligned against the body source), re-evaluates to the value, plus the whole expr oracle for the rest; non-trivial = a computed variable whose body has a dice term is read next to another term; distinct by (source, seed, variables)"
-	run.Check("computed", 9000, 120000, compRule, func(t *rapid.T, s *rt.Section) {
+	compRule := "as expr, with 1..2 variables bound to computed values whose body is a generated expression (no default-sides dice: they crash inside a computed body, a C01 matter), either stored through the API or defined in the program itself by a leading `&name = body;` statement (body spans are rebased by fixCodeByOffset); oracle: value[name=<nested text>=value] where the nested text is the body with its rolls replaced (aligned against the body source), re-evaluates to the value, plus the whole expr oracle for the rest; non-trivial = a computed variable whose body has a dice term is read next to another term; distinct by (source, seed, variables)"
+	run.Check("computed", 12000, 160000, compRule, func(t *rapid.T, s *rt.Section) {
 		c := &Case{Seed: drawSeed(t), Vars: drawVars(t, false)}
 		nt := drawComputed(t, c)
 		src, _ := c.source()
@@ -1406,9 +1473,10 @@ func TestProp(t *testing.T) {
 	})
 
 	tailRule := "a generated expression (as in expr, one statement) followed by a separator (blank, line break, ';' or nothing) and free text: words, CJK text, punctuation, brackets, quotes, operators, keywords, or a second expression cut at a random byte and optionally opened by [ { ( `{ ' x( x[ — the way a chat command carries a reason after the dice; only what the VM reports as consumed is judged: GetDetailText never fails, is idempotent and harmless, the text is the consumed source with every reported span range replaced by value[annotation], the value is the span's Ret, and (when the consumed part is arithmetic) the de-annotated text re-evaluates to Ret; non-trivial = at least one dice term and a non-empty unconsumed rest; distinct by (source, seed)"
-	run.Check("tail", 16000, 250000, tailRule, func(t *rapid.T, s *rt.Section) {
+	run.Check("tail", 24000, 300000, tailRule, func(t *rapid.T, s *rt.Section) {
 		c := &Case{Seed: drawSeed(t), Vars: drawVars(t, false)}
 		g := newGen(t, c.Vars)
+		g.avoid = s.Avoid
 		g.budget = rapid.IntRange(1, 5).Draw(t, "budget")
 		c.Prog = &Program{Stmts: []*Node{g.genExpr(2)}}
 		c.Tail = drawTail(t, g)
@@ -1463,11 +1531,16 @@ func TestReplay(t *testing.T) {
 			return s.NewFailure("replay", "replay:bad-case", nil, err.Error(), "")
 		}
 		if c.Prog == nil {
-			// hand-written probe: {"src": "...", "seed": "...", "vars": [...]} — judged like a tail case
-			c.Prog = &Program{}
-			c.Tail = c.Src
-			if c.Tail == "" {
+			// hand-written probe {"src": "...", "seed": "...", "vars": [...]}: a source of the domain language is
+			// judged like an expr case, anything else like a tail case (only what the VM consumed is judged)
+			if c.Src == "" {
 				return s.NewFailure("replay", "replay:bad-case", nil, "neither prog nor src", "")
+			}
+			if n, err := parseDomain(c.Src); err == nil {
+				c.Prog = &Program{Stmts: []*Node{n}}
+			} else {
+				c.Prog = &Program{}
+				c.Tail = c.Src
 			}
 		}
 		f, _ := checkCase(&c, s)
